@@ -13,20 +13,33 @@
 (*             (feat_cmn used to overwrite it on the first streaming block)*)
 (*   ring      live feature ring content: "clean" or "stale"               *)
 (*   gsel      Gaussian-selection history of the last frame scored         *)
-(* Visible state: grammar, cmn (the running estimate: "c0" after set_cmn,  *)
-(* "u<k>" after k streaming updates), utterance in progress.               *)
-(* Deviations: "cmn-mode-sticks" reproduces the code before the fix.       *)
+(*   accum     the running CMN sums hold frames of utterances since the    *)
+(*             last reset; stale = sums that survived a reset              *)
+(*   beams     "orig" or "narrow": the search narrows its beams while more *)
+(*             HMMs are active than maxhmmpf allows, and an utterance can  *)
+(*             end in that condition                                       *)
+(* Visible state: grammar, cmn (the channel-normalisation state as its     *)
+(* history since the last reset: <<"init">>, <<"full">> or <<"short">>     *)
+(* after set_cmn with a complete or a partial vector, then one audio per   *)
+(* streaming utterance), utterance in progress.                            *)
+(* Deviations: "cmn-mode-sticks" reproduces the code before fix 3d7fa79;   *)
+(* "short-reset-keeps-sums" (a partial vector resets the means but not the *)
+(* sums of the coefficients it does not list) and "beams-not-restored"     *)
+(* (start of utterance keeps the narrowed beams) are the two ways this     *)
+(* state could leak that seeded changes showed the check has to see.       *)
 (***************************************************************************)
 EXTENDS Session, FiniteSets
 
-CONSTANTS Inst, Grams, Audios, Deviations, MaxOps
+CONSTANTS Inst, Grams, Audios, Deviations, MaxOps,
+          Throttling      \* audios that end while the search is throttled (with the configured maxhmmpf)
 VARIABLES st, seen, last, nops
 vars == <<st, seen, last, nops>>
 
 \* a new decoder comes with grammar 1 loaded (configuration); instance 2 is only created next to instance 1
 \* (the two are interchangeable)
-Fresh == [alive |-> TRUE, gram |-> 1, cmn |-> "init", cmnmode |-> "cfg", ring |-> "clean", gsel |-> "none",
-          utt |-> "idle", audio |-> "", batch |-> FALSE, cmn0 |-> "", nupd |-> 0]
+Fresh == [alive |-> TRUE, gram |-> 1, cmn |-> <<"init">>, cmnmode |-> "cfg", ring |-> "clean", gsel |-> "none",
+          utt |-> "idle", audio |-> "", batch |-> FALSE, cmn0 |-> <<>>, accum |-> FALSE, stale |-> FALSE, stale0 |-> FALSE,
+          beams |-> "orig", beams0 |-> "orig"]
 Dead == [alive |-> FALSE]
 
 Init == /\ st = [i \in Inst |-> Dead] /\ seen = << >> /\ last = <<"init">> /\ nops = 0
@@ -35,8 +48,12 @@ New(i) == /\ ~st[i].alive /\ (i = 1 \/ st[1].alive) /\ st' = [st EXCEPT ![i] = F
 Free(i) == /\ st[i].alive /\ st[i].utt = "idle" /\ st' = [st EXCEPT ![i] = Dead] /\ last' = <<"free", i>> /\ UNCHANGED seen
 SetGram(i, g) == /\ st[i].alive /\ st[i].utt = "idle" /\ st[i].gram # g
                  /\ st' = [st EXCEPT ![i].gram = g] /\ last' = <<"gram", i, g>> /\ UNCHANGED seen
-SetCmn(i) == /\ st[i].alive /\ st[i].utt = "idle" /\ st[i].cmn # "c0"
-             /\ st' = [st EXCEPT ![i].cmn = "c0"] /\ last' = <<"setcmn", i>> /\ UNCHANGED seen
+\* decoder_set_cmn with all 13 values ("full") or fewer ("short"): either way the whole state is replaced
+SetCmn(i, kind) ==
+    /\ st[i].alive /\ st[i].utt = "idle" /\ st[i].cmn # <<kind>>
+    /\ st' = [st EXCEPT ![i].cmn = <<kind>>, ![i].accum = FALSE,
+                        ![i].stale = kind = "short" /\ st[i].accum /\ "short-reset-keeps-sums" \in Deviations]
+    /\ last' = <<"setcmn", i, kind>> /\ UNCHANGED seen
 
 \* start + feed everything (streaming in pieces, or one full-utterance batch call)
 Begin(i, a, batch) ==
@@ -44,13 +61,17 @@ Begin(i, a, batch) ==
     /\ st' = [st EXCEPT ![i].utt = "fed", ![i].audio = a, ![i].batch = batch, ![i].cmn0 = st[i].cmn,
                         \* a streaming block switches the stored mode for good (the deviation) or not at all
                         ![i].cmnmode = IF ~batch /\ "cmn-mode-sticks" \in Deviations THEN "live" ELSE @,
-                        ![i].ring = "stale", ![i].gsel = a]
+                        ![i].ring = "stale", ![i].gsel = a, ![i].stale0 = st[i].stale,
+                        \* start of utterance restores the configured beams
+                        ![i].beams0 = IF "beams-not-restored" \in Deviations THEN st[i].beams ELSE "orig"]
     /\ last' = <<"begin", i, a, batch>> /\ UNCHANGED seen
 
 \* the normalisation a batch utterance really gets
 EffBatch(i) == st[i].batch /\ st[i].cmnmode = "cfg"
 \* the result as the code computes it: the declared arguments ... plus hidden state where it leaks
-Result(i) == <<"R", st[i].gram, IF EffBatch(i) THEN "batch" ELSE st[i].cmn0, st[i].audio, st[i].batch>>
+Result(i) == <<"R", st[i].gram, IF EffBatch(i) THEN <<"batch">> ELSE st[i].cmn0, st[i].audio, st[i].batch>>
+             \o (IF st[i].stale0 /\ ~EffBatch(i) THEN <<"stale sums">> ELSE <<>>)
+             \o (IF st[i].beams0 # "orig" THEN <<"narrow beams">> ELSE <<>>)
 
 End(i) ==
     /\ st[i].alive /\ st[i].utt = "fed"
@@ -61,12 +82,13 @@ End(i) ==
     /\ st' = [st EXCEPT ![i].utt = "idle",
                         \* streaming utterances move the running estimate; a batch one that was really
                         \* normalised as batch does not
-                        ![i].cmn = IF EffBatch(i) THEN @ ELSE "u" \o ToString(st[i].nupd + 1),
-                        ![i].nupd = IF EffBatch(i) THEN @ ELSE @ + 1]
+                        ![i].cmn = IF EffBatch(i) THEN @ ELSE Append(@, st[i].audio),
+                        ![i].accum = IF EffBatch(i) THEN @ ELSE TRUE,
+                        ![i].beams = IF st[i].audio \in Throttling THEN "narrow" ELSE "orig"]
 
 DoNew == \E i \in Inst : New(i)
 DoFree == \E i \in Inst : Free(i)
-DoSetCmn == \E i \in Inst : SetCmn(i)
+DoSetCmn == \E i \in Inst, kind \in {"full", "short"} : SetCmn(i, kind)
 DoEnd == \E i \in Inst : End(i)
 DoSetGram == \E i \in Inst, g \in Grams : SetGram(i, g)
 DoBegin == \E i \in Inst, a \in Audios, b \in BOOLEAN : Begin(i, a, b)
